@@ -258,7 +258,16 @@ func c13Prop(rep *report.R) func(*rapid.T) {
 	failed := false
 	return func(rt *rapid.T) {
 		model := drawInitial(rt, 5)
+		emptyStart := rapid.IntRange(0, 9).Draw(rt, "emptystart") == 0
+		if emptyStart {
+			// the empty configuration of a fresh tracker (bootstrap) is a valid
+			// input too: voters may be added to it one simple change at a time
+			model = refmodel.NewConf()
+		}
 		trk, err := trackerFor(model)
+		if emptyStart {
+			trk, err = tracker.MakeProgressTracker(4, 0), nil
+		}
 		if err != nil {
 			failed = true
 			v13(rt, "roundtrip", "Restore of initial config %s failed: %v", model, err)
@@ -409,6 +418,11 @@ func TestC13Closure(t *testing.T) {
 		delete(c.Learners, uint64(id))
 	}
 	rec(1, refmodel.NewConf())
+	// plus the empty configuration of a fresh tracker
+	if e := refmodel.NewConf(); !seen[e.Key()] {
+		seen[e.Key()] = true
+		queue = append(queue, e)
+	}
 	states, transitions, nontriv := 0, 0, 0
 	for len(queue) > 0 {
 		cur := queue[0]
